@@ -27,6 +27,7 @@ CFGS = [
     {"config": ["a/b"], "option": ["a/*"], "gitignore": "tmp/\n# comment\n\nlib\n"},
     {"config": ["lib", "src/"], "option": [], "gitignore": "*.py\n"},
     {"config": ["/lib"], "option": ["/b"], "gitignore": "/out\n"},
+    {"config": ["gen", "!gen/m.py"], "option": ["tmp/", "!tmp/lib/m.py"], "gitignore": "lib\n!lib/b/\n"},     # negation (outside the statement's pattern classes; last match wins)
 ]
 ROOTS = [("/w", "/w"), (".", "/w"), ("..", "/w/src"), ("w", "/"), ("/w/src/..", "/x"), ("../w", "/x")]     # (root argument, cwd)
 CFG = CFGS[param("cfg", 0)]
@@ -71,7 +72,12 @@ def excluded_ref(rel, builtin):
     pats = list(builtin) + CFG["config"] + CFG["option"]
     if CFG["gitignore"] is not None:
         pats += [ln for ln in CFG["gitignore"].splitlines() if ln.strip() and not ln.startswith("#")]
-    return any(re.fullmatch(ref_regex(p), rel) for p in pats)
+    res = False
+    for p in pats:                       # gitignore: the last matching entry decides; a leading '!' re-includes
+        neg = p.startswith("!")
+        if re.fullmatch(ref_regex(p[1:] if neg else p), rel):
+            res = not neg
+    return res
 
 
 def hidden(rel):
@@ -422,3 +428,86 @@ def real_h_cli_sources(oi, yi, gi, as_check):
     f = _cli.__wrapped__ if hasattr(_cli, "__wrapped__") else _cli
     bad = f(oi, yi, gi, "check" if as_check else "scan")
     return {"reproduced": bool(bad), "sig": "exclusion-sources:" + "+".join(sorted({b.split(":")[0] for b in bad})), "detail": f"--exclude {OPTS[oi]} .codelimit.yml {YMLS[yi]!r} .gitignore {GITS[gi]!r} via {'check' if as_check else 'scan'}: {bad}"}
+
+
+# ----------------------------------------------------------------------------------------------- C12: the REAL shared pipeline on both sides (real lexers, real scan_file), concrete sample files
+def _long(n, indent="  ", end=";"):
+    return "".join(f"{indent}v{i} = {i}{end}\n" for i in range(n))
+
+
+REAL_FILES = {
+    "plain.py": "def plain(a):\n" + _long(35, "    ", "") + "    return a\n\n\ndef small(b):\n    return b\n",
+    "opted.py": "def opted_out(a):  # nocl generated\n" + _long(40, "    ", "") + "    return a\n\n\ndef kept(b):\n" + _long(33, "    ", "") + "    return b\n",
+    "huge.js": "function huge(a) {\n" + _long(70) + "  return a;\n}\n\nfunction mid(b) { // NOCL\n" + _long(45) + "}\n\nconst arrow = (c) => {\n" + _long(31) + "};\n",
+    "Svc.java": "class Svc {\n  int work(int a) throws E {\n" + _long(62, "    ") + "    return a;\n  }\n  /* nocl */ int skip(int b) {\n" + _long(40, "    ") + "    return b;\n  }\n}\n",
+    "lat1.py": b"# caf\xe9\ndef latin(a):\n" + _long(36, "    ", "").encode() + b"    return a\n",
+    "cmt.c": "int f(int a) {\n// only a comment\n" + "".join(f"  v{i} = {i}; /* c */\n\n" for i in range(32)) + "  return a;\n}\n",
+}
+REAL_NAMES = sorted(REAL_FILES)
+
+
+@untraced
+def _check_real(fi, ai, quiet):
+    name = REAL_NAMES[fi]
+    files = {"/w/src/main.py": "x = 1\n", "/w/pkg/sub/" + name: REAL_FILES[name], "/w/pkg/other.py": REAL_FILES["plain.py"]}
+    fs = fsstub.FakeFS(files, cwd="/w")
+    FP = fsstub.make_path_class(fs)
+    fos = fsstub.FakeOS(fs)
+    con = RecConsole()
+    saved = {}
+
+    def setp(mod, n, v):
+        saved[(mod, n)] = mod.__dict__.get(n, None)
+        setattr(mod, n, v)
+    import hashlib
+    for mod in (scn, chk):
+        setp(mod, "os", fos)
+        setp(mod, "Path", FP)
+        setp(mod, "open", fs.open)
+        setp(mod, "get_lexer_for_filename", lambda p: _real_glff(str(p)))
+    setp(scn, "relpath", fos.relpath)
+    setp(scn, "calculate_checksum", lambda p: hashlib.md5(fs.read(str(p), binary=True)).hexdigest())
+    setp(scn, "generate_exclude_spec", lambda root: _real_spec(FP(str(root))))
+    setp(chk, "generate_exclude_spec", lambda root: _real_spec(FP(str(root))))
+    for n, v in (("os", fos), ("Path", FP), ("Console", lambda *a, **k: con), ("rich", _Rich(con))):
+        setp(crmod, n, v)
+    arg = ["pkg/sub/" + name, "pkg/sub", "pkg", ".", "/w", "/w/pkg/sub"][ai]
+    code = None
+    try:
+        cb = scn.scan_path(FP("/w"))
+        try:
+            chk.check_command([FP(arg)], quiet)
+        except typer.Exit as e:
+            code = e.exit_code
+    finally:
+        for (mod, n), v in saved.items():
+            if v is None:
+                if n in mod.__dict__:
+                    del mod.__dict__[n]
+            else:
+                setattr(mod, n, v)
+    rel = "pkg/sub/" + name
+    rows = [t for t in con.texts() if t.startswith(rel + ":")]
+    ms = sorted([m for m in cb.files[rel].measurements() if m.value > 30], key=lambda m: -m.value)
+    exp = [f"{rel}:{m.start.line}:{m.start.column}: {m.value} {'✖' if m.value > 60 else '⚠'} {m.unit_name}" for m in ms]
+    bad = []
+    if rows != exp:
+        bad.append(f"listing-differs-from-scan: check {rows} scan {exp}")
+    if code not in (0, 1):
+        bad.append("check-did-not-exit-normally")
+    return bad
+
+
+def h_check_real(fi: int, ai: int, quiet: bool) -> bool:
+    """
+    pre: 0 <= fi < len(REAL_NAMES) and 0 <= ai < 6
+    post: _
+    """
+    bad = _check_real(_pick(fi, len(REAL_NAMES)), _pick(ai, 6), True if quiet else False)
+    return fin(bad == [], True)
+
+
+def real_h_check_real(fi, ai, quiet):
+    f = _check_real.__wrapped__ if hasattr(_check_real, "__wrapped__") else _check_real
+    bad = f(fi, ai, quiet)
+    return {"reproduced": bool(bad), "sig": "check-vs-scan:real-pipeline:" + "+".join(sorted({b.split(":")[0] for b in bad})), "detail": f"file {REAL_NAMES[fi]} reached as #{ai}: {bad}"}
